@@ -155,6 +155,14 @@ def analyse_unit(unit, gen_dir, tier, canary=False):
                     if fn_.endswith(".rs") and rel_ not in files:
                         others.append(rel_)
         files = files + sorted(others)
+        # receiver types named by the "no method named .. found for .. `T`" errors: outside the unit's own files a method is
+        # only taken from an impl of THAT type (a `len` of some other type is not the missing `len`)
+        recv = {}
+        for fe in ur.frontend_errors:
+            mrecv = re.search(r"no method named `(\w+)` found for (?:\w+ )*`&*(?:mut )?([A-Za-z_]\w*)", fe)
+            if mrecv:
+                recv.setdefault(mrecv.group(1), set()).add(mrecv.group(2))
+        own_files = {f["file"] for f in ur.gen.functions}
         for name in sorted(names):
             if any(e[2] == name for e in extra):
                 continue
@@ -163,6 +171,8 @@ def analyse_unit(unit, gen_dir, tier, canary=False):
                     src = extract.Source(rel)
                     hit = src.find_helper(name)
                 except AnchorLost:
+                    hit = None
+                if hit and rel not in own_files and name in recv and not any(re.search(r"\b" + re.escape(t_) + r"\b", hit[0]) for t_ in recv[name]):
                     hit = None
                 if hit:
                     props = sorted({p for f in ur.gen.functions if f["file"] == rel for p in f["props"]}) or sorted({p for f in ur.gen.functions for p in f["props"]})
